@@ -12,7 +12,7 @@ def alphabet(cfg, c):
     size = c["size"]
     mx = size - 1
     return ["a:2:1:long", "a:2:3:ps", "a:0:1:int", "a:1:1:int", "a:0:%d:char" % (size - 200), "a:0:-1:llong", "a:0:1:ps", "a:1:2:ps",
-            "a:0:%d:int" % (1 << 30), "a:1:%d:char" % 64, "i:0:int", "i:1:ps", "i:-1:int", "i:3:larr3", "i:%d:char" % (size - 1),
+            "a:0:%d:int" % (1 << 30), "a:1:%d:char" % 64, "pp:int", "mm:ps", "pp:char", "i:0:int", "i:1:ps", "i:-1:int", "i:3:larr3", "i:%d:char" % (size - 1),
             "f:a", "f:d", "f:e", "e:3", "e:4", "e:4294967299", "e:18446744073709551615", "c", "l:0", "l:16", "l:%d" % mx, "l:%d" % (size - 4), "lc:16:r", "lc:%d:c" % (size - 4), "g:0", "g:%d" % mx, "g:64",
             "m:1:char:64", "m:2:ps:%d" % (size - 40), "m:1:int:%d" % mx, "m:3:int:0", "r:%d" % (A + 128), "r:%d" % (Bb + 128),
             "r:%d" % APP_BASE, "u:%d" % (A + size - 1), "n"]
